@@ -160,6 +160,25 @@ def main():
     else:
         for _ in range(20000):
             inputs.append(("tokens3", " ".join(rng.choice(reps) for _ in range(3))))
+    # long lexemes with multi-byte characters at every alignment, alone, next to every token class and in place of
+    # every token of the small derivations (a syntax error is then reported AT a long, non-ASCII lexeme)
+    longs = []
+    for ch in ("\u00e9", "\u20ac", "\U0001F600"):
+        for shift in ("", "a", "ab", "abc"):
+            longs.append("'" + shift + ch * 40 + "'")
+            longs.append("\"" + shift + ch * 40 + "\"")
+            longs.append("(*" + shift + ch * 40 + "*)")
+    longs += ["x" * 100, "x" * 5000, "9" * 200, "16#" + "F" * 200, "%IX" + "1." * 60 + "1"]
+    for lt in longs:
+        inputs.append(("long-token", lt))
+        for a in reps[::4]:
+            inputs.append(("long-token", a + " " + lt))
+            inputs.append(("long-token", lt + " " + a))
+    for d in ds_small[:: max(1, len(ds_small) // 400)]:
+        sp = [gram.spell([tk])[0] for tk in d["toks"]]
+        for i in range(len(sp)):
+            lt = longs[(i * 7 + len(sp)) % len(longs)]
+            inputs.append(("long-token-in-sentence", " ".join(sp[:i] + [lt] + sp[i + 1:])))
     for kind, t in nesting(12):
         inputs.append(("nesting:" + kind, t))
     for lit in LITS:
